@@ -200,7 +200,9 @@ def gen_boards():
     a16 = strip_comments(open(os.path.join(REPO, "detector/src/alpha16.rs")).read())
     pwb = strip_comments(open(os.path.join(REPO, "detector/src/padwing.rs")).read())
     cb = strip_comments(open(os.path.join(REPO, "detector/src/chronobox.rs")).read())
-    boards = const_init(a16, "ALPHA16BOARDS")
+    # the order of the rows of a board table carries no meaning (look-ups by name / MAC / device id; rows are
+    # proved pairwise distinct): generate them sorted, so that re-ordering the source table changes nothing
+    boards = sorted(const_init(a16, "ALPHA16BOARDS"), key=lambda r: r[0])
     t = HEADER
     t += "(* detector/src/alpha16.rs ALPHA16BOARDS: (name bytes, mac) *)\n"
     t += "Definition alpha16_boards : list (list N * list N) :=\n  [" + ";\n   ".join(
@@ -208,7 +210,7 @@ def gen_boards():
     bs = eval_int(const_int(a16, "BASELINE_SAMPLES"), {})
     mk = eval_int(const_int(a16, "MIN_KEEP_LAST"), {"BASELINE_SAMPLES": bs})
     t += "Definition gen_BASELINE_SAMPLES : N := %d.\nDefinition gen_MIN_KEEP_LAST : N := %d.\n" % (bs, mk)
-    pboards = const_init(pwb, "PADWING_BOARDS")
+    pboards = sorted(const_init(pwb, "PADWING_BOARDS"), key=lambda r: r[0])
     t += "\n(* detector/src/padwing.rs PADWING_BOARDS: (name bytes, mac, device id) *)\n"
     t += "Definition padwing_boards : list (list N * list N * N) :=\n  [" + ";\n   ".join(
         "(%s, %s, %d)" % (coq_str(n), coq_nlist(mac), dev) for n, mac, dev in pboards) + "].\n"
